@@ -5,8 +5,9 @@ worktree: ZVT_REPO / VERIF_WORK), and the verdicts are recorded. usage: lib/muta
 import json, os, random, re, subprocess, sys, time
 
 ROOT = os.path.dirname(os.path.dirname(os.path.abspath(__file__)))
-WT = "/tmp/mut_wt"
-WORK = "/tmp/mut_work"
+MID = os.environ.get("MUT_ID", "")
+WT = "/tmp/mut_wt" + MID
+WORK = "/tmp/mut_work" + MID
 FILES = ["zvt_builder/src/length.rs", "zvt_builder/src/encoding.rs", "zvt_builder/src/lib.rs", "zvt_derive/src/lib.rs", "zvt/src/io.rs",
          "zvt/src/sequences.rs", "zvt/src/feig/sequences.rs", "zvt/src/feig/packets/tlv.rs", "zvt/src/packets.rs", "zvt/src/packets/tlv.rs",
          "zvt_feig_terminal/src/feig.rs", "zvt_feig_terminal/src/stream.rs"]
